@@ -12,3 +12,5 @@ open GrVerif.Props.C17
 #print axioms resolved_verdict_is_true
 #print axioms shift_stays_inside_limit
 #print axioms every_offered_position_is_free
+#print axioms zero_width_range_is_emptied
+#print axioms zero_width_test_leaves_wellformed_sets_alone
